@@ -185,4 +185,54 @@ theorem routes_agree (rnd : Rat → Rat) (fe fr : Bool) (info : PyDict) (txs₁ 
   refine ⟨rfl, rfl, ?_, rfl⟩
   simp only [runFile, runNoFile, fileAfter, encode_append]
 
+/-! ### the Result of a run, as the statement demands it -/
+
+/-- [core] for every clean run (`CleanRun`: what MakeTasks/ProcessTasks emit — each component and each
+triple once, well-formed evaluation records, params keys distinct as strings) the returned Result is
+exactly `specResult`: the interactions table holds, per triple in id order, exactly the yielded rows in
+order, numbered 1..N, normalised; the three params tables hold exactly the params; `experiment` is the
+preamble.  For all rounding functions, all values, all row shapes. -/
+theorem run_spec (rnd : Rat → Rat) (info : PyDict) (txs : List Tx) (hc : CleanRun txs) :
+    runNoFile rnd true true info txs = .ok (specResult rnd info txs) := run_spec' rnd info txs hc
+
+example : CleanRun [.t1 0 [(.str "a", .tup [.int 1])], .t2 0 [], .t3 0 [(.bool true, .flt (1/3))],
+    .t4 [0, 0, 0] [[(.str "x", .flt (1/3))], [(.none, .nan)]]] where
+  noT0 := by intro m hm; simp at hm
+  wf := by
+    intro ir hir
+    simp only [t4sOf, List.mem_singleton] at hir
+    subst hir
+    refine ⟨rfl, Or.inl ?_⟩
+    decide
+  triNodup := by simp [t4sOf]
+  idNodup := by intro t; cases t <;> simp [paramsOf]
+  keysOk := by
+    intro t ip hip
+    cases t <;> simp [paramsOf] at hip <;> subst hip <;> simp [Key.json, idColName]
+
+/-- the order in which transactions reach the log is immaterial -/
+theorem run_order_invariant (rnd : Rat → Rat) (info : PyDict) (txs txs' : List Tx) (hp : txs.Perm txs')
+    (hc : CleanRun txs) : runNoFile rnd true true info txs = runNoFile rnd true true info txs' := by
+  rw [run_spec' rnd info txs hc, run_spec' rnd info txs' (cleanRun_perm txs txs' hp hc), specResult_perm rnd info txs txs' hp hc]
+
+/-- restored runs: a first run logging `txs₁` and a second run appending `txs₂` return the Result of a
+single fresh run (with or without a file) that emits the same transactions in any order `txs` -/
+theorem routes_agree_restored (rnd : Rat → Rat) (info : PyDict) (txs₁ txs₂ txs : List Tx)
+    (hp : txs.Perm (txs₁ ++ txs₂)) (hc : CleanRun txs) :
+    runFile rnd true true info (some (fileAfter rnd true info none txs₁)) txs₂ = runNoFile rnd true true info txs
+    ∧ fromFile true (fileAfter rnd true info (some (fileAfter rnd true info none txs₁)) txs₂) = runNoFile rnd true true info txs := by
+  have h := (routes_agree rnd true true info txs₁ txs₂).2.2
+  rw [h.2, h.1, run_order_invariant rnd info txs (txs₁ ++ txs₂) hp hc]
+  exact ⟨rfl, rfl⟩
+
+/-- the evaluations appear in the interactions table in increasing order of their id triples -/
+theorem order_by_ids (txs : List Tx) :
+    (sortBy ltTriP (t4sOf txs)).Pairwise (fun a b => ¬ b.1 < a.1) := by
+  have h := sortBy_sorted ltTriP ltTriP_asymm ltTriP_trans (t4sOf txs)
+  refine h.imp ?_
+  intro a b hab
+  unfold leOf ltTriP at hab
+  rw [Bool.eq_false_iff, ne_eq, ltIds_iff] at hab
+  exact hab
+
 end Coba.C07
